@@ -262,6 +262,88 @@ fn emit(cs: &'static Cs, id: u64) {
 /// build does hand out a reference into the reloadable value, that reference is an ordinary
 /// shared reference obtained through safe code: it must not change its value, let alone dangle,
 /// when the handle reloads.  (Under Miri / the sanitizers the stale use is reported by the tool.)
+/// An installed `EnvFilter` with a span directive, extended IN PLACE through the handle
+/// (`modify(|f| *f = take(f).add_directive(..))` - the only way to add to an installed filter
+/// without losing its directives): emissions that start after `modify` returned are judged by
+/// the extended filter, also at span callsites the old filter had already seen.  As a reloadable
+/// global layer and as a reloadable per-layer filter.
+fn env_modify_probe(out: &mut Out) {
+    #[derive(Clone, Default)]
+    struct Cnt(Arc<Mutex<Vec<&'static str>>>);
+    impl<C: Collect> Subscribe<C> for Cnt {
+        fn on_event(&self, e: &Event<'_>, _: Context<'_, C>) {
+            struct V(Option<&'static str>);
+            impl Visit for V {
+                fn record_str(&mut self, f: &Field, v: &str) {
+                    if f.name() == "tag" {
+                        self.0 = Some(match v {
+                            "d1" => "d1",
+                            "t1" => "t1",
+                            "d2" => "d2",
+                            "t2" => "t2",
+                            "out" => "out",
+                            _ => "?",
+                        });
+                    }
+                }
+                fn record_debug(&mut self, _: &Field, _: &dyn std::fmt::Debug) {}
+            }
+            let mut v = V(None);
+            e.record(&mut v);
+            if let Some(t) = v.0 {
+                self.0.lock().unwrap().push(t);
+            }
+        }
+    }
+    // one span callsite, hit before and after the modify
+    fn req() -> tracing::Span {
+        tracing::info_span!("c12_req")
+    }
+    fn body(modify: &dyn Fn()) {
+        {
+            let s = req();
+            let _e = s.enter();
+            tracing::debug!(tag = "d1");
+            tracing::trace!(tag = "t1");
+        }
+        modify();
+        {
+            let s = req();
+            let _e = s.enter();
+            tracing::debug!(tag = "d2");
+            tracing::trace!(tag = "t2");
+        }
+        tracing::trace!(tag = "out");
+    }
+    let want = vec!["d1", "d2", "t2"];
+    for per_layer in [false, true] {
+        let cnt = Cnt::default();
+        let got = if per_layer {
+            let (f, h) = reload::Subscriber::new(EnvFilter::new("[c12_req]=debug"));
+            let d = Dispatch::new(Registry::default().with(cnt.clone().with_filter(f)));
+            dispatch::with_default(&d, || body(&|| h.modify(|f| *f = std::mem::take(f).add_directive("[c12_req]=trace".parse().unwrap())).expect("HARNESS: modify")));
+            cnt.0.lock().unwrap().clone()
+        } else {
+            let (f, h) = reload::Subscriber::new(EnvFilter::new("[c12_req]=debug"));
+            let d = Dispatch::new(Registry::default().with(f).with(cnt.clone()));
+            dispatch::with_default(&d, || body(&|| h.modify(|f| *f = std::mem::take(f).add_directive("[c12_req]=trace".parse().unwrap())).expect("HARNESS: modify")));
+            cnt.0.lock().unwrap().clone()
+        };
+        out.evals += 1;
+        out.count("env_filter_extended_in_place_probes", 1);
+        if got != want {
+            out.violation(
+                "an EnvFilter extended in place through its reload handle does not judge emissions that started after modify() returned",
+                json!({"position": if per_layer { "per-layer filter" } else { "global layer" },
+                       "filter": "EnvFilter::new(\"[c12_req]=debug\"), then modify: add_directive(\"[c12_req]=trace\")",
+                       "events_delivered": got, "expected": want,
+                       "legend": "d1/t1 = DEBUG/TRACE inside span c12_req before the modify, d2/t2 = after it (a new span from the same callsite), out = TRACE outside any span"}),
+            );
+            return;
+        }
+    }
+}
+
 fn downcast_probe(out: &mut Out) {
     use tracing_subscriber::filter::Targets;
     // (a) a Copy value
@@ -336,6 +418,7 @@ fn child_hist(args: &Args) {
     let only = args.get("only").and_then(|s| s.parse::<u64>().ok());
     let mut out = Out::new();
     downcast_probe(&mut out);
+    env_modify_probe(&mut out);
     let fresh = Fresh::new();
     let mut used: Vec<&'static Cs> = vec![];
     let mut opid = 1u64;
